@@ -67,7 +67,7 @@ def check_case(ctx: Ctx, case) -> None:
     exp = expected_notes(res, items)
     lines = [S.track_line(it) for it in items]
     rc = {"phrases": phrases, "notes": note_ticks, "lines": lines}
-    chart, tr = T.parse_track(ctx, res, TEMPO, lines, HEADER, rc)
+    chart, tr = T.parse_track(ctx, res, TEMPO, lines, HEADER, rc, fmt=case.get("fmt", 0))
     if tr is None:
         return
     got_sp = [[e.tick, e.sustain] for e in tr.star_power_events]
@@ -76,7 +76,7 @@ def check_case(ctx: Ctx, case) -> None:
         return
     T.compare_notes(ctx, tr, exp, rc, {"ticks", "sp"})
     boundary, after, zero, overlap = _classify(phrases, note_ticks)
-    ctx.note([phrases, note_ticks],
+    ctx.note([phrases, note_ticks, case.get("fmt", 0)],
              nontrivial=len(phrases) >= 2 and (boundary or after >= 2 or zero or overlap),
              classes=[f"phrases_{min(len(phrases), 4)}"] + [c for c, f in (
                  ("boundary_note", boundary), ("notes_after_last>=2", after >= 2),
@@ -107,7 +107,7 @@ def drive_small(ctx: Ctx) -> None:
             i += 1
             if i % ctx.nshards != ctx.shard:
                 continue
-            case = {"phrases": pl, "notes": [t for t in range(8) if m >> t & 1]}
+            case = {"phrases": pl, "notes": [t for t in range(8) if m >> t & 1], "fmt": i if i % 5 == 0 else 0}
             ctx.current = case
             check_case(ctx, case)
     # 3-phrase lists, sampled
@@ -170,7 +170,8 @@ def _relations(draw, ctx):
             notes = [t for t in notes if t >= last_end]
         elif mode == 2:  # all notes before the first phrase
             notes = [t for t in notes if t < phrases[0][0]]
-    return {"phrases": phrases, "notes": notes, "res": draw(st.sampled_from([192, 480, 3]))}
+    return {"phrases": phrases, "notes": notes, "res": draw(st.sampled_from([192, 480, 3])),
+            "fmt": draw(st.one_of(st.just(0), st.just(0), st.integers(1, 10 ** 6)))}
 
 
 def strat_relations(ctx: Ctx):
